@@ -552,8 +552,13 @@ def check_tebd_tables(prog, rep):
             var = unparse(st.target)
             calls = [c for c in ast.walk(st) if isinstance(c, ast.Call) and
                      dotted(c.func) == 'self._calc_U_bond']
-            app = [c for c in ast.walk(st) if isinstance(c, ast.Call) and
-                   dotted(c.func) == 'self._U.append']
+            # the table is `self._U` itself or a local list published as `self._U = <local>`
+            tabs = {'self._U'} | {unparse(a.value) for a in ast.walk(f) if isinstance(
+                a, ast.Assign) and [unparse(t) for t in a.targets] == ['self._U'] and isinstance(
+                    a.value, ast.Name) and a.lineno > st.lineno}
+            app = [c for c in ast.walk(st) if isinstance(c, ast.Call) and isinstance(
+                c.func, ast.Attribute) and c.func.attr == 'append' and
+                   unparse(c.func.value) in tabs]
             for c in calls:
                 try:
                     p = eval_poly(c.args[1], {})
@@ -919,6 +924,10 @@ def run(prog, rep, tier):
     rep.rule('LABEL-known', 'typestate of leg-label sets: literal labels used on a local tensor '
              'whose complete label set is known (literal transposition, contractions) exist on it')
     check_labels(prog, rep, ['tenpy/algorithms/tebd.py', 'tenpy/algorithms/tdvp.py', 'tenpy/algorithms/mpo_evolution.py'])
+    rep.rule('CACHE-key-after-value', 'the memo key of calc_U is published only after the gates '
+             'are complete: nothing that can raise is reachable after the key store')
+    if check_cache_key_order(prog, rep) < 2:
+        raise AnalysisError('CACHE-key-after-value: memo guards of calc_U not found')
     rep.rule('TROTTER-order', 'order conditions of the fourth-order Suzuki scheme on the folded literals')
     check_trotter_order(prog, rep)
     return rep.finish(
@@ -998,3 +1007,78 @@ def check_trotter_order(prog, rep):
                           'order has a third-order error term (it converges like a second-order '
                           'scheme)' % (t1, t3, what, resid), f.lineno)
     return len(checks)
+
+
+# ------------------------------------------------------------------ CACHE-key-after-value
+def check_cache_key_order(prog, rep):
+    """CACHE-key-after-value: a method that skips its work when `self.<key> == <params>` (memo
+    guard followed by `return`) publishes the key only once the cached value is complete: no
+    statement that can raise (a call other than logging, a `raise`) and no store to another
+    attribute built by a call is reachable after `self.<key> = <params>`. Otherwise an exception
+    between the two leaves a key that describes a value that was never built, and the next call
+    with the same parameters silently reuses the previous value."""
+    from ..cfg import CFG
+    n = 0
+    for rel in ('tenpy/algorithms/tebd.py', 'tenpy/algorithms/mpo_evolution.py',
+                'tenpy/algorithms/tdvp.py', 'tenpy/algorithms/purification.py',
+                'tenpy/algorithms/algorithm.py'):
+        m = prog.module(rel)
+        for q, f0 in m.functions.items():
+            if '==' not in unparse(f0):
+                continue
+            f = inline_temps(f0)     # a named guard / parameter dict is the same guard
+            guard = None
+            for st in stmts_of(f):
+                if isinstance(st, ast.If) and st.body and isinstance(st.body[-1], ast.Return):
+                    for c in ast.walk(st.test):
+                        if isinstance(c, ast.Compare) and len(c.ops) == 1 and isinstance(
+                                c.ops[0], ast.Eq) and isinstance(c.left, ast.Attribute) and \
+                                unparse(c.left).startswith('self.') and isinstance(
+                                    c.comparators[0], (ast.Name, ast.Dict, ast.Call)):
+                            guard = (unparse(c.left), unparse(c.comparators[0]))
+                if guard:
+                    break
+            if not guard:
+                continue
+            key, local = guard
+            stores = [st for st in stmts_of(f) if isinstance(st, ast.Assign) and any(
+                unparse(t) == key for t in st.targets) and unparse(st.value) == local]
+            if not stores:
+                continue
+            cfg = CFG(f)
+            for st in stores:
+                n += 1
+                todo = [x for nd in cfg.nodes_of(st) for x in cfg.normal_succ(nd)]
+                seen = set()
+                bad = None
+                while todo and bad is None:
+                    x = todo.pop()
+                    if x.id in seen:
+                        continue
+                    seen.add(x.id)
+                    s2 = x.stmt
+                    if s2 is not None and not isinstance(s2, (ast.If, ast.For, ast.While, ast.Try,
+                                                             ast.With)):
+                        if isinstance(s2, ast.Raise):
+                            bad = s2
+                        for c in ast.walk(s2):
+                            if isinstance(c, ast.Call) and not (call_name(c) or '').startswith(
+                                    ('logger.', 'warnings.')):
+                                bad = s2
+                    elif s2 is not None and isinstance(s2, (ast.If, ast.While)):
+                        for c in ast.walk(s2.test):
+                            if isinstance(c, ast.Call):
+                                bad = s2
+                    elif s2 is not None and isinstance(s2, ast.For):
+                        bad = s2 if any(isinstance(c, ast.Call) for c in ast.walk(s2.iter)) \
+                            else bad
+                    todo.extend(cfg.normal_succ(x))
+                rep.instance('CACHE-key-after-value', {'function': q, 'module': rel, 'key': key,
+                                                       'params': local, 'ok': bad is None})
+                if bad is not None:
+                    rep.violation('CACHE-key-after-value', m, q, 'key-before:' + key_text(bad)[:50],
+                                  '`%s = %s` is stored before `%s`, which can raise: the memo '
+                                  'guard `%s == %s` then skips the rebuild on the next call and the '
+                                  'previous gates are used with the new parameters'
+                                  % (key, local, key_text(bad)[:60], key, local), st.lineno)
+    return n
